@@ -181,6 +181,17 @@ CHECKS['C25'] = dict(
          'catalog), 64-bit hash collisions.',
     design='§4 C25')
 
+CHECKS['C02'] = dict(
+    technique='symbolic key-expression agreement (T10) over the index maintenance closures; must-precede (T2) of the normaliser before every index probe; field-awareness rule on index choosers; dominance rule for order restoration',
+    text='Decides that every key filed in a user index from row values is normalize_for_comparison(apply_prefix_truncation(v, prefix_length)) '
+         'at every maintenance site, that range_scan/multi_lookup normalise probe values before touching either backend, that every function '
+         'choosing an index for WHERE / ORDER BY / IN-subquery looks at prefix_length (prefix indexes hold truncated keys), and that '
+         'execute_index_scan restores table order / reverses for DESC on the right branches. These are necessary conditions of index '
+         'independence for all data and queries.',
+    note='Not decided: bound arithmetic (inclusive/exclusive, increments), NULL keys, cost model, 2^53 precision of the Double canonical form '
+         '(harmless while the WHERE clause is re-applied by the executor).',
+    design='§4 C02')
+
 NOT_APPLICABLE = {
     'C01': 'Equality of result multisets with a reference engine is a value-level semantic equivalence over all queries and data; no structural necessary condition beyond those claimed under C06/C21/C24 exists and a static rule cannot stand in for an oracle.',
     'C03': 'Columnar-vs-row agreement is determined by computed values (empty input, NULL handling, sums); a rejected shape falls back safely, so no table-agreement obligation exists whose breach necessarily changes results.',
